@@ -165,7 +165,7 @@ CHECKS["C08"] = dict(
         "struct with five error structs of alignment 1..8, both outcomes, both ABIs. The mock allocator returns dirty memory (second repaired defect, 20f97e6: "
         "is_ok not written for absent optional fields; C08_absent_option_unrepaired_refuted).",
    note="No wasm32 Rust target in the sandbox: the legacy flattened argument list is checked against docs/wasm_abi_quirks.md, not rustc. Slices, "
-        "opaque fields and 128-bit integers are not generated; one corner (2-scalar struct directly inside an aggregate with a union) is excluded. "
+        "opaque fields and 128-bit integers are not generated; one corner (2-scalar struct inside an aggregate with a union) departs from the documented rule: recorded finding, exercised by two fixed shapes on every run, outside C08_flat_js_is_documented. "
         "Trusted: Coq kernel+vm_compute, hand transcription, python spec, node.",
    design="§5 C08")
 CHECKS["C04"] = dict(
